@@ -396,10 +396,9 @@ func runDB(c *ctx, r *vlib.RNG) []string {
 		dc := dbCase{Kind: "db", Seed: r.Uint64(), NOps: r.Range(300, 1500), KeySpace: []int{8, 40, 200, 1000}[r.Intn(4)],
 			WriteBuffer: []int{1 << 10, 4 << 10, 16 << 10}[r.Intn(3)], BlockSize: []int{64, 256, 1024, 4096}[r.Intn(4)],
 			Lg: []int{0, 3, 5, 8, 11}[r.Intn(5)], TableSize: []int{2 << 10, 8 << 10, 64 << 10}[r.Intn(3)], NoCache: r.Chance(1, 3),
-			// batches larger than the write buffer would otherwise take the transaction path, whose
-			// lost-write defect (unrelated to filters) makes the same program answer differently from run
-			// to run even without any filter
-			NoLargeBatchTx: true}
+			// batches larger than the write buffer take the transaction path in half of the programs (its lost-write
+			// defect, which once made the same program answer differently from run to run, is repaired: fix 2a22e13)
+			NoLargeBatchTx: r.Chance(1, 2)}
 		jobs = append(jobs, dc)
 	}
 	var wg sync.WaitGroup
